@@ -177,8 +177,31 @@ def enc_md(md):
     return 's:' + str(md)
 
 
+# metadata values need not be plain numbers or strings: a multi-element array (per-channel gains) and an object without
+# __eq__ compare equal only by IDENTITY. `mdobj` cases carry both in every metadata dict (the very same two objects), so
+# that pieces of one array stay concatenable only as long as slicing / copying hands the values on unchanged.
+GAIN = np.array([1.0, 2.5])
+
+
+class _Tag:
+    pass
+
+
+TAG = _Tag()
+
+
+def mkmd_for(rep):
+    if rep.get('mdobj'):
+        one = lambda v: {'i': v, 'gain': GAIN, 'tag': TAG}
+    else:
+        one = lambda v: {'i': v}
+    return lambda m: [one(v) for v in m] if isinstance(m, list) else one(m)
+
+
 def md_id(m):
     if isinstance(m, dict) and set(m) == {'i'}:
+        return int(m['i'])
+    if isinstance(m, dict) and set(m) == {'i', 'gain', 'tag'} and m['gain'] is GAIN and m['tag'] is TAG:
         return int(m['i'])
     return repr(m).replace(' ', '')
 
@@ -600,6 +623,12 @@ class C11(Spec):
                 cc = copy.deepcopy(c)
                 cc['rep'] = self.rand_rep(rng, cc)
                 cc['kind'] = 'repr:' + c['kind'].split('-')[0]
+                yield cc
+            if c['kind'] != 'scale' and any(op.get('op') == 'concat' for op in c['ops']) and rng.random() < 0.5:
+                # the same history with metadata values that compare equal only by identity (see GAIN / TAG)
+                cc = copy.deepcopy(c)
+                cc['rep'] = dict(cc.get('rep') or {}, mdobj=True)
+                cc['kind'] = 'mdobj'
                 yield cc
 
     def hardening_cases(self, rng, tier):
@@ -1070,7 +1099,7 @@ class C11(Spec):
     @staticmethod
     def build(P, a, rep):
         """PipelineData(...) for the array description `a`; `rep` = another spelling of the same arguments."""
-        mkmd = lambda m: [{'i': v} for v in m] if isinstance(m, list) else {'i': m}
+        mkmd = mkmd_for(rep)
         n = int(np.prod(a['shape'])) if a['shape'] else 1
         dt = rep.get('dtype') or float
         data = (a['base'] + np.arange(n)).astype(dt).reshape(a['shape'])
@@ -1117,10 +1146,8 @@ class C11(Spec):
         from psiaudio import pipeline as P
         regs, out = {}, []
 
-        def mkmd(m):
-            return [{'i': v} for v in m] if isinstance(m, list) else {'i': m}
-
         rep = c.get('rep') or {}
+        mkmd = mkmd_for(rep)
         for k, a in enumerate(c['arrs']):
             regs[k] = self.build(P, a, rep)
             out.append(canon_pd(regs[k]))
